@@ -18,7 +18,7 @@ RULE = ("Histories over {setLayout(L) for every layout, write(k) (overwrite with
         "world and on a numpy model (global array, current layout, saved (array, layout) or none); after "
         "EVERY step getAllData() must equal the model block bit-for-bit and currentLayout the model layout; "
         "illegal calls must raise on every rank and leave the state unchanged.  (exhaustive) all histories up "
-        "to length 4 (quick) / 5 (thorough) on three fixed configurations (grids (2,2),(1,3),(3,1), uneven "
+        "to length 4 (quick) / 6 (thorough) on three fixed configurations (grids (2,2),(1,3),(3,1), uneven "
         "extents, float and complex); (random) Hypothesis configurations (handlers and swappers, with and "
         "without save memory) with histories up to 30 steps biased to save -> >=2 setLayout -> restore. "
         "Non-trivial = history contains save, then >=2 layout changes or a write, then restore, on >=2 ranks; "
@@ -34,7 +34,7 @@ FIXED = [
     {"cfg": {"kind": "handler", "shape": [3, 2, 5, 4], "nprocs": [3, 1], "layouts": STD}, "dtype": "float64",
      "save": True, "start": "poloidal"},
 ]
-MAXLEN = {"quick": 4, "thorough": 5}
+MAXLEN = {"quick": 4, "thorough": 6}
 
 
 def init_worker(tier):
@@ -222,7 +222,7 @@ SUBS = {"exhaustive": Sub(predicate, enumerate=enum_cases, exhaustive=True),
 
 
 def jobs(tier):
-    n = 150 if tier == "quick" else 2500
+    n = 150 if tier == "quick" else 9000
     return ([{"sub": "exhaustive", "shard": i, "nshards": 16} for i in range(16)] +
             [{"sub": "random", "n": n, "shard": i} for i in range(16)])
 
